@@ -1103,6 +1103,7 @@ func execC17(raw json.RawMessage, wantLog bool) (out Outcome) {
 				if !n.alive {
 					continue
 				}
+				legs0 := len(s.infoLegs)
 				loBefore, _, cntBefore := replicaRange()
 				rpc0 := s.rpcCount["/anndb_pb.DataManager/PartitionInfo"]
 				h, _ := r.runRead(W3Op{K: "size", Node: n.idx})
@@ -1123,6 +1124,11 @@ func execC17(raw json.RawMessage, wantLog bool) (out Outcome) {
 					continue
 				}
 				got := h.res.(*sizeRes)
+				for _, leg := range s.infoLegs[legs0:] {
+					if leg.ok && !leg.loaded {
+						r.viol("partition-info/answered-by-a-node-that-does-not-host-the-partition", "SizeInfo on n%d succeeded with a lookup of partition %x that n%d answered although it does not host it", n.idx, leg.partition[:4], leg.to)
+					}
+				}
 				if c.Lag {
 					// A replica that has just been added is legitimately behind (sizes are read from
 					// whatever replica is asked, not through the log). What must hold is that every
